@@ -24,6 +24,77 @@ def entry_points(prog):
 make_stop = c05.make_stop
 
 
+UEL = "winter_utils::serde::byte_writer::usize_encoded_len"
+
+
+def vint64_len(bits):
+    """documented vint64 length of a value with `bits` significant bits."""
+    return 9 if bits > 56 else max(1, -(-bits // 7))
+
+
+def r3_vint64_length(c):
+    """usize_encoded_len depends on its argument only through leading_zeros(value): 65 classes.  The
+    returned length is evaluated per class by the interval engine (no winterfell code is run; the
+    body is min / saturating_sub / division by constants) and compared with the vint64 table."""
+    from .. import intervals, guardcells
+    from ..ir import callee_of, op_local
+    from ..patterns import cmp_sites, slice_const_ints
+    p = c.p
+    f = p.fn(UEL, inline=False)
+    lz = [(bi, t) for bi, t in f.calls() if (callee_of(t) or {}).get("name") == "leading_zeros" and not f.is_cleanup(bi)]
+    uses_ok = False
+    if len(lz) == 1:
+        arg_chain, work, other = {1}, [1], []
+        while work:
+            l = work.pop()
+            for u in f.uses(l):
+                if u["kind"] == "assign" and u["rv"][0] == "use" and len(u["p"]) == 1:
+                    if u["p"][0] not in arg_chain:
+                        arg_chain.add(u["p"][0])
+                        work.append(u["p"][0])
+                elif u["kind"] == "call" and u["bb"] == lz[0][0]:
+                    pass
+                else:
+                    other.append(u)
+        uses_ok = op_local(lz[0][1]["a"][0]) in arg_chain and not other
+    c.ob("R3", "length-factors-through-leading_zeros", uses_ok,
+         "usize_encoded_len uses `value` only as the argument of one leading_zeros call" if uses_ok else
+         "usize_encoded_len no longer depends on its argument only through leading_zeros (the 65-class table does not apply)", f)
+    if not uses_ok:
+        return
+    an = intervals.Analysis(p)
+    rb = f.return_blocks()
+    bad, und = [], []
+    for z in range(65):
+        an.overrides = {(f.key, lz[0][1]["dest"][0]): (z, z)}
+        guardcells._clear(an)
+        iv = an.eval_op(f, ["cp", [0]], (rb[0], f.INF - 1))
+        want = vint64_len(64 - z)
+        if iv is None or iv[0] != iv[1]:
+            und.append(z)
+        elif iv[0] != want:
+            bad.append("%d significant bits -> %d (vint64: %d)" % (64 - z, iv[0], want))
+    an.overrides = {}
+    ok = not bad and not und
+    c.ob("R3", "vint64-length-table", ok,
+         "usize_encoded_len = 9 for > 56 significant bits, else max(1, ceil(bits / 7)), on all 65 leading-zero classes" if ok else
+         ("usize_encoded_len differs from the vint64 length: " + "; ".join(bad[:4]) if bad else
+          "usize_encoded_len could not be evaluated on leading-zero classes %s" % und[:6]), f)
+    # writer / reader wiring
+    w = p.fn("winter_utils::serde::byte_writer::ByteWriter::write_usize")
+    r = p.fn("winter_utils::serde::byte_reader::ByteReader::read_usize")
+    cs = w.calls_to(UEL)
+    wired = bool(cs) and 2 in w.slice_of_operand(cs[0][1]["a"][0], at=(cs[0][0], w.INF))["args"]
+    c.ob("R3", "write_usize-length-from-table", wired,
+         "write_usize takes its length from usize_encoded_len(value as u64)" if wired else "write_usize does not take its length from usize_encoded_len(value)", w)
+    for g, label in ((w, "write_usize"), (r, "read_usize")):
+        nine = [x for x in cmp_sites(g) if x["op"] == "Eq" and 9 in (slice_const_ints(g.slice_of_operand(x["a"], at=(x["bb"], g.INF))) |
+                                                                      slice_const_ints(g.slice_of_operand(x["b"], at=(x["bb"], g.INF))))]
+        c.ob("R3", "%s-nine-byte-case" % label, bool(nine),
+             "%s special-cases length == 9 (zero length byte followed by 8 value bytes)" % label if nine else
+             "%s has no length == 9 case" % label, g)
+
+
 def run(ctx):
     ctx.rule("R2", "no undischarged panic / abort / unbounded-allocation site reachable from SliceReader methods, ByteReader provided methods and the primitive Deserializable impls on arbitrary bytes (A5)", 20)
     ctx.rule("ENTRY", "entry points resolved from the impl table", 1)
@@ -37,7 +108,9 @@ def run(ctx):
     if hasattr(c07, "run_schema"):
         ctx.rule("R1", "writer/reader schema agreement for the primitive impls in winter_utils::serde", 10)
         ctx.guard("R1", lambda c: c07.run_schema(c, "R1", only_crates=("winter_utils",)))
-    ctx.assume("the vint64 arithmetic of write_usize/read_usize/usize_encoded_len is value-level and not decided")
+    ctx.rule("R3", "usize_encoded_len equals the documented vint64 length on all 65 leading-zero classes; write_usize takes its length from it; writer and reader both special-case 9 bytes", 5)
+    ctx.guard("R3", r3_vint64_length)
+    ctx.assume("the shift arithmetic of write_usize/read_usize (value << length, >> length) is value-level and not decided; only the length table and its wiring are")
 
 
 def thorough(ctx):
